@@ -36,7 +36,7 @@ COMPONENTS = {"real": ["setigen.cadence.Cadence.add_signal / overwrite_times / c
 ASSUMPTIONS = ["box frequency profiles are not combined with sub-sample integration (knife-edge pixels)",
                "an interrupt delivered on the cadence loop's own restore statement is out of scope",
                "the failing frame's own data is not judged after a fault"]
-PROBES = ["frame_with_own_time_origin", "callback_raised_on_frame_k>0", "interrupt_inside_later_frame", "integrate_path", "integrate_t_profile",
+PROBES = ["options_by_position", "frame_with_own_time_origin", "callback_raised_on_frame_k>0", "interrupt_inside_later_frame", "integrate_path", "integrate_t_profile",
           "integrate_f_profile", "doppler_smearing", "slice_subset", "label_subset", "repeated_injection", "gaps_between_frames",
           "array_path", "bounding_range", "stateful_rfi_path", "noncontiguous_subset", "parent_built_with_t_overwrite", "second_injection_through_other_selection"]
 MAX_LINE_POINTS = 1500
@@ -94,7 +94,8 @@ def generate(rng, tier):
             "parent_overwrite": rng.random() < 0.3,
             "select2": rng.choice([None, None, "all", "slice", "stride", "index", "label" if ordered else "slice"]),
             "path": path, "t": tprof, "f": fprof, "bp": bp, "opts": opts, "bounding": bounding,
-            "repeats": rng.choice([1, 1, 2]), "t_slew": rng.choice([0.0, 10.0, 300.25]), "ops": []}
+            "repeats": rng.choice([1, 1, 2]), "t_slew": rng.choice([0.0, 10.0, 300.25]), "ops": [],
+            "positional": rng.choice([0, 0, 0, 2, 3, 5, 8])}
 
 
 def simplify(sc):
@@ -373,7 +374,20 @@ def execute(sc, ctx):
         tpath, ttp, tfp, tbpp, _ = make_components(sc, tch0, fmin)       # twin's own instances (same seeds)
         data_before = [np.array(fr.data, copy=True) for fr in all_frames]
         try:
-            use.add_signal(path, tp, fp, bpp, **kw)
+            if sc.get("positional"):
+                # the options handed over by position, in the documented order of Frame.add_signal
+                order = ["bounding_f_range", "integrate_path", "integrate_t_profile", "integrate_f_profile", "doppler_smearing",
+                         "t_subsamples", "f_subsamples", "smearing_subsamples"]
+                defaults = {"bounding_f_range": None, "integrate_path": False, "integrate_t_profile": False,
+                            "integrate_f_profile": False, "doppler_smearing": False, "t_subsamples": 10, "f_subsamples": 10,
+                            "smearing_subsamples": 10}
+                npos = min(sc["positional"], len(order))
+                pos = [kw.get(k, defaults[k]) for k in order[:npos]]
+                rest = {k: v for k, v in kw.items() if k not in order[:npos]}
+                use.add_signal(path, tp, fp, bpp, *pos, **rest)
+                ctx.hit("options_by_position")
+            else:
+                use.add_signal(path, tp, fp, bpp, **kw)
         except Exception as e:
             ctx.violation("nominal", "C16/nominal/raises:%s" % type(e).__name__, repr(e))
             return
